@@ -438,6 +438,16 @@ let run_case (oc : out_channel) (c : case) : unit =
            | DeOk (h2, g2) -> Printf.sprintf "%s de ok %s" (order_str order) (graph_snap directed h2 g2)
            | DeMissing _ -> Printf.sprintf "%s de err" (order_str order))
       | "gdebytes" -> "exercise-only"
+      | "xenc" ->
+          (* integer encoding of the whole heap; compared with the same encoding computed by vm_compute inside Coq
+             (thorough tier: validates extraction itself) *)
+          let b = Buffer.create 256 in
+          List.iter (fun u ->
+            Buffer.add_string b (Printf.sprintf " 100 %d" (List.length ((!h).outs u)));
+            List.iter (fun (v, e) -> Buffer.add_string b (Printf.sprintf " %d %d" (int_of_nat v) (int_of_n e))) ((!h).outs u);
+            Buffer.add_string b (Printf.sprintf " %d" (List.length ((!h).ins u)));
+            List.iter (fun (v, e) -> Buffer.add_string b (Printf.sprintf " %d %d" (int_of_nat v) (int_of_n e))) ((!h).ins u)) (ids !h);
+          "xenc" ^ Buffer.contents b
       | "ecmp" ->
           (* ecmp u i v j : compare the i-th iterated edge of u with the j-th iterated edge of v *)
           let u = nat_of_int (ios st.(1)) and v = nat_of_int (ios st.(3)) in
